@@ -388,7 +388,13 @@ def holdsC01Tick (sc : Json) (c : TickCtx) : List String := Id.run do
   if c.impl.sigBad then st := { st with viol := st.viol ++ ["signals_contained.sigkill"] }
   for e in c.impl.evs do
     match e with
-    | .setxattr cg n _ _ _ =>
+    | .setxattr cg0 n _ _ _ =>
+      -- swap stream: the kill-accounting xattrs are written by path; a cgroup that took the path of a candidate during the
+      -- kill (ids from 100000 = id of the replaced cgroup + 100000) receives them.  That is one recorded finding with its own
+      -- class; the attempt is then followed as the attempt on the replaced cgroup, whose directory the plugin still holds
+      let stray := cg0 ≥ 100000
+      let cg := if stray then cg0 - 100000 else cg0
+      if stray then st := { st with viol := st.viol ++ ["writes_contained.xattr_by_path_after_swap"] }
       if isUuid n then
         if st.victim != some cg then
           if st.success then st := { st with viol := st.viol ++ ["stops_at_first_success"] }
@@ -678,7 +684,11 @@ def classOf (viol : List String) (c : Option TickCtx) : String :=
     | some c =>
       if c.impl.evs.any (fun e => match e with | .kill p _ => p == 0 | _ => false) then "procs-line-0" else "procs-line-negative"
     | none => "procs-line-0"
-  else viol.head?.getD ""
+  else
+    -- the recorded by-path finding names a scenario only when nothing else is violated in it
+    match viol.filter (· != "writes_contained.xattr_by_path_after_swap") with
+    | v :: _ => v
+    | [] => viol.head?.getD ""
 
 def handle (j : Json) : Json := Id.run do
   let sc := jobj j "s"
@@ -714,7 +724,10 @@ def handle (j : Json) : Json := Id.run do
         let (g', open_) := if isPgScan sc then pgScanGate gate (i + 1) else (none, true)
         gate := g'
         let (mevs, mret, rankOk) := modelTick sc c open_
-        let same := sameEvents mevs c.impl.evs && some mret == retOfStr c.ret && c.impl.unknown.isEmpty && rankOk
+        -- swap stream: the world changes while run() executes, which the model does not describe; only the property clauses
+        -- are evaluated on such a trace
+        let swapped := jhas sc "swap_at_kill" && jbool run "swapped"
+        let same := swapped || (sameEvents mevs c.impl.evs && some mret == retOfStr c.ret && c.impl.unknown.isEmpty && rankOk)
         if !same then
           accepts := false
           notes := notes ++ [Json.mkObj [("variant", Json.str variant), ("tick", Json.num i),
